@@ -7,8 +7,19 @@ A generated class set (vf.gen.xrefgen: invokes, field accesses, strings, class u
 xrefs, every method- and class-level xref getter with offsets, call-graph nodes and edges — must be identical for every
 order and identical to the single-DEX analysis. The reference is the single-DEX analysis (the statement is relational);
 that the single-DEX analysis itself equals the abstract model is what C13/C14/C15 check.
+
+Open finding cross-dex-field (same root cause as C14 field-owner, not fixable without changing a pinned test count):
+Analysis._create_xref resolves the target of a field instruction only in the DEX of that instruction, so an access to a
+field defined in another DEX file is recorded in the single-DEX analysis and dropped in the split one. The expected
+effect of exactly that defect is computed from the reference snapshot (`project`): the cross-DEX field accesses are
+removed from MethodAnalysis.get_xref_read/write, and the FieldAnalysis objects held by an accessing class of another
+DEX disappear from get_fields() / ClassAnalysis.get_fields(). A split snapshot that equals the reference is fine; one
+that equals the projection goes to the 'differs:cross-dex-field' bucket (known finding); anything else is reported as a
+difference from the projection, i.e. every other part of the snapshot stays strictly compared.
 """
+import copy
 import itertools
+from collections import Counter
 
 from vf.gen import xrefgen as X
 from vf.checks import _xref as A
@@ -19,6 +30,7 @@ RULE = ('xrefgen model with 2..5 classes assigned to k = 2..4 DEX files (every f
         'analysed once and the split build once per add order (all k! <= 24 permutations); the by-name snapshots of all '
         'getters must coincide. non-trivial = >=2 DEX files and a method/field/class reference whose target is defined in '
         'another DEX file; distinct = model')
+KNOWN = ':cross-dex-field'
 ASSUMPTIONS = ['vf/gen/dexgen.py writes well-formed DEX files whose string/type/member pools contain exactly what the '
                'classes of the file need (so the union of the split pools equals the pool of the single file)',
                'the single-DEX analysis is the reference; its agreement with the abstract model is C13/C14/C15']
@@ -51,6 +63,39 @@ def _bucket(path):
     return top + (':' + sub if sub else '')
 
 
+def project(ref, exp, dexof):
+    """The reference (single-DEX) snapshot as the cross-dex-field defect would turn it for this split: field accesses
+    whose field is defined in another DEX than the accessing class are dropped. Returns (snapshot, number of dropped
+    method-side entries)."""
+    df = exp['defined_fields']
+    p = dict(ref)
+    dropped = 0
+    p['m'] = {}
+    for mk, ent in ref['m'].items():
+        ent = dict(ent)
+        for key in ('read', 'write'):
+            keep = {e for e in ent[key] if not (e[1] in df and mk[0] in dexof and dexof[e[1][0]] != dexof[mk[0]])}
+            dropped += len(ent[key]) - len(keep)
+            ent[key] = keep
+        p['m'][mk] = ent
+    fields = Counter()
+    for (fk, rd, wr), n in ref['fields'].items():
+        holders = {e[0] for e in (rd | wr)}
+        # a FieldAnalysis whose entries all come from one class of another DEX than the field's owner is never created
+        if fk in df and len(holders) == 1 and next(iter(holders)) != fk[0] and \
+                dexof.get(next(iter(holders))) != dexof[fk[0]]:
+            continue
+        fields[(fk, rd, wr)] += n
+    p['fields'] = fields
+    p['c'] = {}
+    for cn, ent in ref['c'].items():
+        ent = dict(ent)
+        ent['fields'] = Counter({fk: n for fk, n in ent['fields'].items()
+                                 if not (fk in df and fk[0] != cn and cn in dexof and dexof[fk[0]] != dexof[cn])})
+        p['c'][cn] = ent
+    return p, dropped
+
+
 def run_model(ctx, model, record=True, orders=None):
     model = X.normalize(model)
     exp = A.exp_from_model(model)
@@ -68,6 +113,8 @@ def run_model(ctx, model, record=True, orders=None):
     except A.AnalysisFailure as e:
         ctx.fail('exception:single:' + e.where, case0, e.tb)
         return
+    proj, ndrop = project(ref, exp, X.dex_of(model))
+    has_proj = proj != ref
     perms = list(itertools.permutations(range(k))) if orders is None else [tuple(o) for o in orders]
     ctx.count('orders_analysed', len(perms))
     seen = set()
@@ -81,16 +128,31 @@ def run_model(ctx, model, record=True, orders=None):
             continue
         if snap == ref:
             continue
-        diffs = A.diff_snap(ref, snap)
+        if has_proj and snap == proj:
+            ctx.count('defect_model_hits:cross-dex-field')
+            if KNOWN not in seen:
+                seen.add(KNOWN)
+                diffs = A.diff_snap(ref, snap)
+                ctx.fail('differs' + KNOWN, dict(case, defect_model_match=True, cross_dex_field_accesses_dropped=ndrop,
+                                                 all_paths=[d[0] for d in diffs][:12],
+                                                 only_in_single_dex=[d[1] for d in diffs][:4]),
+                         'split over %d DEX files (order %r) equals the single-DEX analysis minus the %d field access(es) whose '
+                         'field is defined in another DEX file; differing parts: %r' % (k, list(order), ndrop, [d[0] for d in diffs][:4]))
+            continue
+        base, tag = (proj, ':vs-defect-model') if has_proj else (ref, '')
+        diffs = A.diff_snap(base, snap)
         for (path, only_single, only_split) in diffs:
-            b = _bucket(path)
+            b = _bucket(path) + tag
             if b in seen:
                 continue
             seen.add(b)
             ctx.fail('differs:' + b, dict(case, path=path, only_in_single_dex=only_single, only_in_split=only_split,
+                                          defect_model_match=False,
+                                          compared_with='single-DEX snapshot minus cross-DEX field accesses' if tag else 'single-DEX snapshot',
                                           all_paths=[d[0] for d in diffs][:12]),
-                     'split over %d DEX files added in order %r differs from the single-DEX analysis at %s: single-only %r / '
-                     'split-only %r' % (k, list(order), path, only_single[:2] if isinstance(only_single, list) else only_single,
+                     'split over %d DEX files added in order %r differs from the single-DEX analysis%s at %s: single-only %r / '
+                     'split-only %r' % (k, list(order), ' (beyond the known cross-DEX field defect)' if tag else '', path,
+                                        only_single[:2] if isinstance(only_single, list) else only_single,
                                         only_split[:2] if isinstance(only_split, list) else only_split))
 
 
@@ -100,8 +162,22 @@ def shards(tier, seed):
 
 def run_shard(ctx, shard):
     n = 140 if ctx.tier == 'quick' else 900
-    A.collect(ctx, X.models(min_dex=2), run_model, n, salt=shard[1], budget_s=6.0)
+    A.collect(ctx, X.models(min_dex=2), run_model, n, salt=shard[1], budget_s=6.0, skip=lambda b: b.endswith(KNOWN))
 
 
 def replay(ctx, case):
     run_model(ctx, case['model'], record=False, orders=[case['order']] if 'order' in case else None)
+
+
+def _m_cross_dex_field(bucket, case, msg):
+    """Only the cross-DEX field shape: the split snapshot equals the single-DEX snapshot with exactly the field accesses
+    whose field lives in another DEX file removed (and nothing else changed), and only field-related parts differ."""
+    if bucket != 'differs' + KNOWN or not case.get('defect_model_match'):
+        return False
+    if not case.get('cross_dex_field_accesses_dropped'):
+        return False
+    ok = ('fields', '.fields', '.read', '.write')
+    return all(p == 'fields' or p.endswith(ok[1:]) for p in case.get('all_paths') or [])
+
+
+MATCHERS = {'cross_dex_field': _m_cross_dex_field}
